@@ -115,8 +115,11 @@ CLAIMS.update({
               'executes like it (at the final tables); offset_shrinks / assemble_compressed_transfer_sound / compressed_never_refused - the distance '
               'to every label only shrinks (same side of 0) between a compression decision and the final layout, so a c.j / c.jal / c.beqz / '
               'c.bnez chosen for a label target still fits, decodes to a legal transfer to the same target and executes like its 32-bit '
-              'origin wherever that origin would be accepted, and is never the cause of a refusal. NOT a theorem: the composition over two whole runs (-c off / on carry different label tables; the '
-              'statement compress_same_ops_statement is kept as a def) - that part is explored: every instruction line of every generated '
+              'origin wherever that origin would be accepted, and is never the cause of a refusal. Two runs: two_run_corr / compress_same_ops_structure - under GrowHyps (li '
+              'operands label-free, call/tail targets are labels, aligns >= 1, program < 2 GiB) the decided item lists of the run without and '
+              'with -c correspond item by item: same item, or an instruction and its recorded compression decision, or a far auipc+jalr pair '
+              'against a near jal (lockstep through the pseudo-instruction pass, pseudo_lockstep_corr). NOT one theorem over both final byte '
+              'strings: the per-decision semantics are the single-run theorems above, read at the -c run\'s final tables. Explored as well: every instruction line of every generated '
               'program is assembled both ways by the real assembler and both encodings are executed by the Lean specification from 8 register '
               'files; registers written, stores and the control-transfer target (mapped through both label tables) must agree, data bytes '
               'must be identical. Known findings KF-A4, KF-A7 (decisions taken on label-dependent values that later move) are exactly the '
@@ -143,16 +146,18 @@ CLAIMS.update({
         technique='Lean 4 theorem: each compression rule preserves acceptance (compress_preserves_success_local, 29 criteria) + outcome pairs (without / with -c) on generated programs',
         text=('Theorems: for every criterion, every instruction and every evaluation of its immediates: if the predicates hold and the '
               '32-bit instruction encodes, the replacement form encodes too, to 2 bytes (compress_preserves_success_local / _model, via '
-              'rule_in_range: the replacement operands are legal for the compressed encoder). NOT a theorem: preservation over a whole '
-              'program, where later passes re-evaluate label-dependent immediates after the decision (statement kept as '
-              'compress_preserves_success_statement); explored instead: each generated program is assembled both ways by the real assembler; '
+              'rule_in_range: the replacement operands are legal for the compressed encoder). C04.compressed_never_refused: a compression '
+              'decision on a label-free or label-transfer origin is never the cause of a refusal. The whole-program statement is FALSE even '
+              'without label arithmetic and with even aligns: align_grows_distance (kernel-checked on the model, confirmed on the real '
+              'assembler, KF-F) - a branch distance across an align can grow with -c; the statement that remains plausible '
+              '(compress_preserves_success_statement2: no align between a transfer and its target) is kept as a def, not proved. Explored: each generated program is assembled both ways by the real assembler; '
               'success without -c and failure with -c is a violation unless the failing line is in the known-finding classes KF-A3 / KF-B '
               '(a compression rule consulted a label-dependent immediate that later left the compressed operand set) or KF-E (alignment to an odd boundary: distances do not keep their parity - found by the proof attempt; C04.compressed_never_refused shows that label-free and label-transfer decisions are otherwise never the cause).'),
         note=TB,
         ref='DESIGN.md §5 C12'),
     'C20': dict(
         category='proof',
-        technique='Lean 4 theorems: every eligible, encodable instruction is matched by a compression criterion (eligible_compressed, per mnemonic and umbrella); a match always yields a 2-byte form; no item grows; + eligibility oracle on the real output',
+        technique='Lean 4 theorems: every eligible, encodable instruction is matched by a compression criterion (eligible_compressed); at program level no literal instruction that stayed 32-bit is eligible (assemble_no_eligible_literal_left); two-run theorem nothing_grows (lockstep simulation of the pipelines with and without -c); + eligibility oracle on the real output, cross-checked against LLVM\'s compressor',
         text=('Theorems: eligible_compressed - for every well-kinded instruction whose resolved form denotes i and is accepted by the 32-bit '
               'encoder, if the RVC specification says i is the expansion of a legal non-hint compressed instruction then some criterion '
               'matches (18 per-mnemonic theorems + umbrella; firstMatch_decides reduces the model\'s predicate evaluation to a numeric one); '
@@ -160,9 +165,12 @@ CLAIMS.update({
               'compress_never_grows - no item of the pass grows; padTo_mono - alignment padding cannot make a later offset overtake; '
               'assemble_no_eligible_literal_left - at PROGRAM level: in the final output of every successful -c assembly no instruction with '
               'label-free immediates that stayed 32-bit is the expansion of a legal RVC instruction (resolution, encoding and decoding read '
-              'off the run itself). NOT a '
-              'theorem: the induction over whole programs that labels and total length do not grow (nothing_grows_statement kept as a '
-              'def); explored: for every literal-operand instruction line the Lean specification decides eligibility of the word emitted '
+              'off the run itself). nothing_grows - the second sentence in full, as a '
+              'theorem about TWO runs: under GrowHyps (every li operand label-free, call/tail targets are labels, every align >= 1, pessimistic '
+              'size < 2 GiB, sizes non-negative - branches, jumps, calls, label-dependent instruction immediates, every compression decision '
+              'and odd aligns are all allowed) if the program assembles both ways then the binary with -c is no longer and no label lies '
+              'higher (lockstep simulation of the two pipelines: pseudo_lockstep, align_lockstep; positions dominate although padding is not '
+              'monotone). LiLiteral is necessary: KF-A5 is reproduced in the model by decide. Explored as well: for every literal-operand instruction line the Lean specification decides eligibility of the word emitted '
               'without -c and the -c build must emit 2 bytes; binary length and every label offset with -c must not exceed those without. '
               'Known finding KF-A5 (label arithmetic in li).'),
         note=TB,
